@@ -14,15 +14,18 @@ from vf.checks import arena_common as ac
 PID = "C19"
 THM = ["YaraModel.Thm.C19"]
 MANIFEST = dict(
-    technique="Lean 4 proof over an executable model of arena.c (growth with pointer fix-up is invisible in the abstract arena, for every operation "
-              "sequence, capacity and move schedule) + op-sequence correspondence with the real arena API + differential compilation under forced growth",
-    text="proof: Thm/C19.lean proves on the arena model that a buffer move with the fix-up loop leaves the abstract arena (buffer contents with every "
-         "registered pointer replaced by the (buffer, offset) it denotes, plus the relocation list) unchanged, that therefore any sequence of arena "
-         "operations yields the same abstract arena and the same saved bytes for every initial capacity and every allocator behaviour, under the protocol "
-         "hypothesis WF (registered slots hold null or a pointer to used bytes; clients keep references, not raw pointers, across allocations). The model is "
-         "tied to arena.c by random operation sequences executed by both. The protocol hypothesis for the real compiler is sampled: a generated corpus of "
-         "rule sets over all constructs is compiled under 29 initial capacities (1 byte .. 1 MiB) and with every allocation forced to move its buffer, "
-         "under ASan; images must be byte-identical and scan results equal.",
+    technique="Lean 4 proof over an executable model of arena.c (growth with pointer fix-up is invisible in the abstract arena, for every capacity, "
+              "address and allocation sequence) + op-sequence correspondence with the real arena API + differential compilation under forced growth",
+    text="proof: Thm/C19.lean proves on the arena model (Model/Arena.lean, arena.c line by line; comparison operators and constants regenerated from the "
+         "source) that for every arena obeying the protocol WF, every buffer, every new capacity and every admissible answer of realloc: a growth (with the "
+         "fix-up loop) leaves the abstract arena unchanged (grow_abs) and leaves no stale reference (grow_wf: every registered slot still holds null or a "
+         "pointer into used bytes at the new address); one allocation is a function of the abstract arena (alloc_abs); the saved bytes are a function of the "
+         "abstract arena (save_of_abs, grow_save); and — partial — any sequence of allocations gives the same abstract arena for every initial size, "
+         "capacity, always-move setting and allocator schedule (alloc_seq_abs_partial: allocation requests only; sequences that also register slots and "
+         "store pointers are covered by the op-sequence correspondence, not by a theorem). The model is tied to arena.c by random operation sequences run "
+         "by both. That the real compiler obeys WF (keeps references, not raw pointers, across allocations) is sampled: a generated corpus of rule sets over "
+         "all constructs is compiled under a ladder of initial capacities from 1 byte to 1 MiB and with every allocation forced to move its buffer, under "
+         "ASan; images must be byte-identical and scan results equal.",
     design_ref="DESIGN.md §5 C19, §4 D9",
     note=core.TB + "The compiler's use of the arena (dozens of call sites) is covered by sampling rule constructs, not by proof. "
          "Built with -fsanitize-recover=alignment,bounds so that two benign UBSan reports inside arena.c are recorded as findings instead of ending the run.")
